@@ -1,0 +1,49 @@
+//go:build verif
+
+package types
+
+import "github.com/siyul-park/uniflow/pkg/encoding"
+
+// VerifNewDecoder builds a fresh decoding assembler with the same compilers, in the same
+// order, as the package-level Decoder, so that verification harnesses can observe decoding
+// with cold caches. Built only with the "verif" tag.
+func VerifNewDecoder() *encoding.DecodeAssembler[Value, any] {
+	decoder := encoding.NewDecodeAssembler[Value, any]()
+	decoder.Add(newPointerDecoder(decoder))
+	decoder.Add(newMapDecoder(decoder))
+	decoder.Add(newSliceDecoder(decoder))
+	decoder.Add(newJSONDecoder(decoder))
+	decoder.Add(newUintegerDecoder())
+	decoder.Add(newIntegerDecoder())
+	decoder.Add(newFloatDecoder())
+	decoder.Add(newBooleanDecoder())
+	decoder.Add(newBufferDecoder())
+	decoder.Add(newBinaryDecoder())
+	decoder.Add(newStringDecoder())
+	decoder.Add(newErrorDecoder())
+	decoder.Add(newTimeDecoder())
+	decoder.Add(newDurationDecoder())
+	decoder.Add(newShortcutDecoder())
+	return decoder
+}
+
+// VerifNewEncoder is the encoding counterpart of VerifNewDecoder.
+func VerifNewEncoder() *encoding.EncodeAssembler[any, Value] {
+	encoder := encoding.NewEncodeAssembler[any, Value]()
+	encoder.Add(newPointerEncoder(encoder))
+	encoder.Add(newMapEncoder(encoder))
+	encoder.Add(newSliceEncoder(encoder))
+	encoder.Add(newJSONEncoder(encoder))
+	encoder.Add(newUintegerEncoder())
+	encoder.Add(newIntegerEncoder())
+	encoder.Add(newFloatEncoder())
+	encoder.Add(newBooleanEncoder())
+	encoder.Add(newBufferEncoder())
+	encoder.Add(newBinaryEncoder())
+	encoder.Add(newStringEncoder())
+	encoder.Add(newErrorEncoder())
+	encoder.Add(newTimeEncoder())
+	encoder.Add(newDurationEncoder())
+	encoder.Add(newShortcutEncoder())
+	return encoder
+}
